@@ -39,7 +39,7 @@
  "unwind_reason": "BOUNDED stand-in: hash chains of at most 4 records (chain length is unbounded in reality); 6 covers the 4+1 records walked and the harness loops",
  "includes": ["e2fsck"],
  "functions": ["e2fsck/revoke.c:find_revoke_record", "e2fsck/revoke.c:insert_revoke_hash", "e2fsck/revoke.c:hash"],
- "assumes": ["bounded: one hash bucket with a chain of at most 4 records; table of 1024 buckets as both front ends create it (hash_shift 10); other buckets are never touched (left uninitialised)",
+ "assumes": ["bounded: one hash bucket with a chain of at most 4 records; table shrunk to 4 buckets (hash_shift 2; the front ends use 1024) to keep the query small; other buckets are never touched (left uninitialised)",
 	     "malloc does not fail (the -ENOMEM path of insert_revoke_hash is not exercised here)"],
  "native": false
 }
@@ -249,15 +249,15 @@ void h_revoke_chain(void)
 {
 	LOAD_IN();
 	ASSUME(IN.n <= 4);
-	TBL.hash_size = 1024;
-	TBL.hash_shift = 10;
-	TBL.hash_table = malloc(1024 * sizeof(struct list_head));
+	TBL.hash_size = 4;
+	TBL.hash_shift = 2;
+	TBL.hash_table = malloc(4 * sizeof(struct list_head));
 	ASSUME(TBL.hash_table != 0);
 	J.j_revoke = &TBL;
 	RCACHE.object_size = sizeof(struct jbd2_revoke_record_s);
 	jbd2_revoke_record_cache = &RCACHE;
 	unsigned long long b = IN.tblk;
-	unsigned int h = (unsigned int)((b * 0x61C8864680B583EBull) >> 54);	/* hash_64(b, 10): top 10 bits of the golden-ratio product */
+	unsigned int h = (unsigned int)((b * 0x61C8864680B583EBull) >> 62);	/* hash_64(b, 2): top 2 bits of the golden-ratio product */
 	struct list_head *head = &TBL.hash_table[h];
 	head->next = head; head->prev = head;
 	/* chain of n records with arbitrary contents, linked as list_add would (newest first) */
